@@ -20,4 +20,29 @@ ExpectedPaint(st, F, S) ==
 
 \* coloured runs <<y, x0, x1, c>> as a set of <<x, y, c>> triples
 CRunsToSet(rs) == UNION { { <<x, rs[i][1], rs[i][4]>> : x \in rs[i][2]..rs[i][3] } : i \in 1..Len(rs) }
+
+---------------------------------------------------------------------------
+(* TRANSCRIBED: style areas and the call decomposition of styled shapes       *)
+\* primitive_style.rs:119-139 with OffsetOutline for Rectangle (EGGeom!Offset) and Circle (circle/mod.rs:60-70)
+RectStrokeArea(r, st) == Offset(r, OutsideW(st))
+RectFillArea(r, st)   == Offset(r, -InsideW(st))
+CircleOffsetT(tl, d, n) ==
+  LET d2 == IF n >= 0 THEN d + 2 * n ELSE SatSubU(d, 2 * (-n))
+      c == Center(<<tl[1], tl[2], d, d>>)
+      r == WithCenter(c, <<d2, d2>>)
+  IN <<<<r[1], r[2]>>, d2>>
+\* rectangle/styled.rs:184-293 (solid stroke): the sequence of fill_solid calls <<area, colour>>
+RectCalls(r, st) ==
+  LET fa == RectFillArea(r, st)  sa == RectStrokeArea(r, st)  w == st.w
+      topH == Min(w, sa[4] \div 2)
+      top == <<sa[1], sa[2], sa[3], topH>>
+      botW == Min(w, sa[4] - topH)
+      bottom == <<sa[1], sa[2] + SatSubU(sa[4], botW), sa[3], botW>>
+      leftW == Min(2 * w, sa[3] + 1) \div 2
+      left == <<sa[1], sa[2] + topH, leftW, fa[4]>>
+      right == <<left[1] + SatSubU(sa[3], leftW), left[2], leftW, fa[4]>>
+  IN (IF HasFill(st) THEN << <<fa, st.fill>> >> ELSE <<>>)
+  \o (IF HasStroke(st) THEN << <<top, st.stroke>>, <<bottom, st.stroke>> >>
+                            \o (IF fa[4] > 0 THEN << <<left, st.stroke>>, <<right, st.stroke>> >> ELSE <<>>)
+      ELSE <<>>)
 =============================================================================
